@@ -22,6 +22,8 @@ CONSTANTS
   Offs,     \* offsets offered to select / insert
   DtSet, DurSet,      \* values offered to the temporal setters
   ESizes,   \* sizes offered to recon
+  TauNear,  \* {} : every tick in range is offered as a time; otherwise only grid points + (these - 2) ticks (fine ticks:
+            \* a step of 65536 ticks puts "one tick off the grid" at 1.5e-5 steps, where a relative tolerance bites)
   SentP, SentN,  \* sentinel values returned by the probe extrapolation
   MaxDepth
 
@@ -42,7 +44,9 @@ Ops(s) ==
       n == s.n
       K == 0..(KMul * n)
       Ls == 1..n
-      TauS == (-2)..(s.dtk * (n - 1) + 2)
+      TauAll == (-2)..(s.dtk * (n - 1) + 2)
+      TauS == IF TauNear = {} THEN TauAll
+              ELSE {t \in {k * s.dtk + d - 2 : k \in 0..n, d \in TauNear} : t >= -2 /\ t <= s.dtk * (n - 1) + 2}
       basic ==
         UNION {{[a |-> "push", v |-> v, d |-> d, inpl |-> ip] : v \in ObsOf(d, E), ip \in BOOLEAN} : d \in PDty}
         \cup UNION {{[a |-> "write", v |-> v, d |-> d, k |-> k, inpl |-> ip] :
